@@ -2,21 +2,76 @@
 
 PROP = {
     "pkg": "internal/filtering",
-    "files": ["filtering/c15_model_test.go", "filtering/c15_parser_test.go", "filtering/c15_refresh_test.go"],
+    "files": ["filtering/c15_model_test.go", "filtering/c15_parser_test.go", "filtering/c15_refresh_test.go",
+              "filtering/c15_regress_test.go"],
     "level": "exploration",
     "claimed": False,
-    "technique": "property-based testing (rapid)",
-    "level_text": "",
-    "level_note": "",
+    "technique": "property-based testing (rapid): reference model of the list normal form and of 'last successfully "
+                 "stored list'; fixed-point (round-trip) oracle; stateful histories of refreshes against a scripted "
+                 "list server with fault injection at the enumerated transfer points",
+    "level_text": "Parser: generated list texts (mixed LF/CRLF/lone CR endings, padding, blank lines, #/! comments, "
+                  "titles, control bytes at the start/middle/end of lines, HTML openings, binary blobs, texts cut at "
+                  "an arbitrary byte, lines around the 1 KiB/4 KiB read buffers and the 64 KiB token limit, byte-wise "
+                  "and chunked readers, several buffer sizes) are parsed by rulelist.Parser and compared with an "
+                  "independent line classifier (normal form bytes, rule count, CRC-32, rejected line => nothing after "
+                  "it stored or counted, never a partial line); every accepted output is parsed again and must "
+                  "reproduce itself, its count and checksum. Refresh: histories (about 8 actions) over 1-3 block and "
+                  "0-2 allow lists served over HTTP or from local files; per refresh and list the source succeeds "
+                  "(new content, byte-identical content, same rules in other clothes, shifted line breaks, empty, via "
+                  "redirect, gzip, chunked) or fails (reset before headers, death after headers / mid-line / at a "
+                  "line boundary / before the last byte with Content-Length or chunked framing, truncated gzip, "
+                  "404/500/.../304, redirect loop, HTML, binary after 0-n good lines, local file missing or a "
+                  "directory); refreshes are started through POST /control/filtering/refresh and through "
+                  "tryRefreshFilters (forced, scheduled with a drawn set of due lists), interleaved with restarts. "
+                  "After every action: file bytes, rules_count of the status API, the checksum in the metadata, a "
+                  "re-parse of the stored file, the inode of unchanged files, absence of temporary files and the "
+                  "block/allow decision for one probe name per list version are compared with the model. "
+                  "Exploration: no absence claim.",
+    "level_note": "Where the statement is silent the check accepts any reading and counts the text as ambiguous: "
+                  "Unicode (non-ASCII) white space at line ends, VT/FF at line ends, control bytes inside comments, "
+                  "an HTML opening after accepted rules, a leading byte-order mark, lines of 64 KiB and more, and "
+                  "whether 'checksum' covers the line feeds. A new content whose checksum equals the stored one "
+                  "(rule lines joined/split differently) may be kept or replaced. last_updated and the file "
+                  "modification time are not asserted. Atomicity/durability of the replacement is C14's subject; "
+                  "timeouts of a hanging server are not generated (the connection is reset instead).",
     "tests": [
-        ("TestVFC15Parser", (8000, 40000)),
-        ("TestVFC15ParserLong", (300, 1500)),
+        ("TestVFC15Parser", (30000, 150000)),
+        ("TestVFC15ParserLong", (400, 2000)),
         ("TestVFC15Refresh", (200, 1000), {"steps": 8}),
     ],
-    "plain": [],
+    "plain": ["TestVFC15RegressOtherKindAllFailed", "TestVFC15RegressSameKindMixed"],
     "shards": (2, 16),
     "workers": (4, 16),
-    "rule": "",
-    "assumptions": [],
     "env": {"GOMAXPROCS": "2"},
+    "rule": "One evaluation = one generated list text (parser tests) or one generated refresh history (refresh "
+            "test: 1-5 lists, on average 8 actions, each refresh drawing a source behaviour per targeted list). "
+            "Parser texts are built line by line from a closed vocabulary of rule shapes and hostile constants "
+            "(30 % of the texts also use the constructs the statement is silent on). Non-trivial parser case = the "
+            "text holds at least one rule and differs from its normal form (something had to be dropped, trimmed "
+            "or rejected); distinct = FNV-64 of the text. Non-trivial refresh case = a list whose history holds a "
+            "successful replacement, later a failed refresh, later another successful replacement with different "
+            "content; distinct = FNV-64 of (list kind, sequence of source behaviour and outcome per refresh).",
+    "assumptions": [
+        "hash/crc32, unicode.IsSpace, net/http, compress/gzip and httptest of the standard library are trusted "
+        "(reference checksum, white space definition, list server double)",
+        "urlfilter decides that the rule ||name^ of a list matches exactly the probe name (trusted library); the "
+        "filler rules of the generated lists cannot match a probe name by construction",
+        "a list is 'due' for a scheduled refresh when its stored last-update instant is older than the interval: "
+        "set by shifting the stored instant, not by waiting",
+    ],
+    "require_classes": {
+        "thorough": [
+            "parser:nontrivial", "parser:rejected_after_rules", "parser:ambiguous", "parser:has:long:at_or_over_limit",
+            "parser:has:long:just_under_limit", "parser:has:doc:html", "parser:has:doc:cut",
+            "refresh:nontrivial", "refresh:act:cut:after_headers", "refresh:act:cut:mid_line",
+            "refresh:act:cut:line_boundary", "refresh:act:cut:last_byte", "refresh:act:reset", "refresh:act:gzip_cut",
+            "refresh:act:html", "refresh:act:binary", "refresh:act:missing", "refresh:act:dir",
+            "refresh:act:redirect_loop", "refresh:act:status:404", "refresh:act:status:500",
+            "refresh:act:ok:same", "refresh:act:ok:same_rules", "refresh:act:ok:shifted", "refresh:act:ok:empty",
+            "refresh:list:allow_http:fail", "refresh:list:allow_local:fail", "refresh:list:block_http:fail",
+            "refresh:list:block_local:fail", "refresh:mixed_outcomes_in_kind", "refresh:kind_all_failed",
+            "refresh:fail_after_success", "refresh:restart", "refresh:mode:api", "refresh:mode:scheduled",
+            "refresh:mode:forced",
+        ],
+    },
 }
